@@ -489,8 +489,6 @@ def run(chk, args):
         for key, msg, bi in oracle(c, res):
             chk.fail_input(key, msg, dict(case=c, call=bi, observed=res["bursts"][bi]["trace"][-40:],
                                           outcome=res["bursts"][bi]["outcome"]))
-        if res["recv_sizes"] not in ([], [512]) or res["blocking"] != [False] * res["nsock"]:
-            chk.count("socket-usage-differs")
         k, obs, long = coq_calls(c, res)
         if k is None:
             chk.disagree("implementation ended in a way the model does not have: %r" %
